@@ -198,6 +198,20 @@ XalanOutputStream::transcode(
                 }
             }
 
+            if (theSourceBytesEaten == 0 && theTargetBytesEaten == 0)
+            {
+                // The transcoder made no progress, although there was room
+                // in the destination, so the rest of the input cannot be
+                // transcoded (it ends in the middle of a surrogate pair,
+                // for example).  Growing the destination again and again
+                // would never end.
+                XalanDOMString  theExceptionBuffer(theDestination.getMemoryManager());
+
+                throw TranscodingException(
+                        theExceptionBuffer,
+                        0);
+            }
+
             theTotalBytesFilled += theTargetBytesEaten;
             theTotalBytesEaten += theSourceBytesEaten;
 
